@@ -71,13 +71,35 @@ fn set_str(mask: u8) -> String {
     format!("[{}]", v.join(","))
 }
 
+/// Marks, in the model, a justification that was inserted under the handle's second key.
+const ALIAS_BIT: u8 = 0x80;
+
+/// One history in three files some of its insertions under a second key of the same handle (`<Name>.alias`): a
+/// pure function of the operations, so saved cases keep decoding. Returns, per operation, whether it does.
+fn alias_plan(c: &Case) -> Vec<bool> {
+    let h = c.ops.iter().fold(c.nh as u64, |a, o| {
+        let x = match *o {
+            Op::Query(h) => h as u64,
+            Op::Insert(h, m) => 7 + h as u64 * 256 + m as u64,
+            Op::Invalidate(h) => 3 + h as u64 * 16,
+        };
+        a.wrapping_mul(1_000_003).wrapping_add(x)
+    });
+    if h % 3 != 0 {
+        return vec![false; c.ops.len()];
+    }
+    c.ops.iter().enumerate().map(|(i, o)| matches!(o, Op::Insert(..)) && (i as u64 + h / 3) % 2 == 0).collect()
+}
+
 fn render(c: &Case) -> String {
+    let plan = alias_plan(c);
     let ops: Vec<String> = c
         .ops
         .iter()
-        .map(|o| match *o {
+        .enumerate()
+        .map(|(i, o)| match *o {
             Op::Query(h) => format!("is_proven {}", NAMES[h as usize]),
-            Op::Insert(h, m) => format!("insert {}<-{}", NAMES[h as usize], set_str(m)),
+            Op::Insert(h, m) => format!("insert {}<-{}{}", NAMES[h as usize], set_str(m), if plan[i] { " under its second key" } else { "" }),
             Op::Invalidate(h) => format!("invalidate {}", NAMES[h as usize]),
         })
         .collect();
@@ -440,7 +462,10 @@ fn observe(g: &mut ProofGraph, m: &Model, f1_at: Option<usize>, keys: &[FactKey]
         if node_valid != want {
             mm.push(Mismatch { observer: "get_node", h, engine: node_valid });
         }
-        if obs == Obs::All || obs == Obs::One(h) {
+        // (a handle that also has justifications filed under its second key: the first key is judged where every
+        // reading agrees -- see observe_alias)
+        let first_key_determined = !want || m.just[h].iter().any(|j| j & ALIAS_BIT == 0);
+        if (obs == Obs::All || obs == Obs::One(h)) && first_key_determined {
             let key = &keys[h];
             let p = g.is_proven(key);
             if p != want {
@@ -449,7 +474,7 @@ fn observe(g: &mut ProofGraph, m: &Model, f1_at: Option<usize>, keys: &[FactKey]
             let l = match g.lookup_by_key(key) {
                 None => false,
                 Some(nodes) => {
-                    if nodes.is_empty() || nodes.iter().any(|n| !n.valid || n.handle != Some(handle_of(h)) || n.key != *key) {
+                    if nodes.is_empty() || nodes.iter().any(|n| !n.valid || n.handle != Some(handle_of(h)) || (n.key != *key && n.key != FactKey::from_pattern(&format!("{}.alias", NAMES[h])))) {
                         return Some(Verdict::fail(
                             "lookup-returned-wrong-node",
                             format!("step {} ({}): lookup_by_key({}.derived) returned an empty list, an invalid node or a node of another handle/key", step, what(), NAMES[h]),
@@ -482,6 +507,50 @@ fn observe(g: &mut ProofGraph, m: &Model, f1_at: Option<usize>, keys: &[FactKey]
         })
         .collect();
     Some(Verdict::fail(sig, format!("step {} ({}): {}", step, what(), list.join("; "))))
+}
+
+/// A handle filed under a second key. The statement speaks of "a cached proof" and its justifications; which key a
+/// justification came in under is no part of it. Judged only where every reading agrees: the second key answers
+/// proven when a justification that was inserted under it survives (and the handle is not flagged), and not proven
+/// when the handle has no surviving justification at all or is flagged. (In between -- only justifications that
+/// came in under the first key survive -- nothing is demanded.) Histories that reach finding F1 are left out.
+fn observe_alias(g: &mut ProofGraph, m: &Model, f1_at: Option<usize>, alias_keys: &[FactKey], alias_used: &[bool], step: usize, what: &dyn Fn() -> String) -> Option<Verdict> {
+    if f1_at.map(|t| t <= step).unwrap_or(false) {
+        return None;
+    }
+    for h in 0..m.nh {
+        if !alias_used[h] {
+            continue;
+        }
+        let want = if !m.proven(h) {
+            false
+        } else if m.just[h].iter().any(|j| j & ALIAS_BIT != 0) {
+            true
+        } else {
+            continue;
+        };
+        let p = g.is_proven(&alias_keys[h]);
+        let l = g.lookup_by_key(&alias_keys[h]).map(|v| !v.is_empty()).unwrap_or(false);
+        if p != want || l != want {
+            return Some(Verdict::fail(
+                if want { "second-key:not-proven-with-live-justification" } else { "second-key:stale-proven" },
+                format!(
+                    "step {} ({}): {} was also inserted under the key {}.alias; is_proven={} lookup_by_key={} under that key, but the model says {} (flagged={}, surviving justifications={:?}, of which inserted under that key: {})",
+                    step,
+                    what(),
+                    NAMES[h],
+                    NAMES[h],
+                    p,
+                    l,
+                    if want { "proven" } else { "not proven" },
+                    m.flagged[h],
+                    m.just[h].iter().map(|&j| set_str(j)).collect::<Vec<_>>(),
+                    m.just[h].iter().filter(|&&j| j & ALIAS_BIT != 0).count()
+                ),
+            ));
+        }
+    }
+    None
 }
 
 fn has_cycle(dep: &[u8], nh: usize) -> bool {
@@ -552,6 +621,9 @@ fn execute(case: &Case, ctx: &mut Ctx) -> Verdict {
     let mut m = Model::new(nh);
     let f1_at = find_f1_trigger(case).map(|t| t.2);
     let keys: Vec<FactKey> = (0..nh).map(key_of).collect();
+    let plan = alias_plan(case);
+    let alias_keys: Vec<FactKey> = (0..nh).map(|h| FactKey::from_pattern(&format!("{}.alias", NAMES[h]))).collect();
+    let mut alias_used = vec![false; nh];
     // classification state
     let mut dep = vec![0u8; nh]; // union of all premises ever given for a handle
     let mut waiting: Vec<u8> = vec![0; nh]; // waiting[p]: dependents inserted while p had no node
@@ -620,8 +692,14 @@ fn execute(case: &Case, ctx: &mut Ctx) -> Verdict {
                     premises.push(premises[0]);
                     premise_keys.push(premise_keys[0].clone());
                 }
-                g.insert_proof(handle_of(h), keys[h].clone(), format!("rule{}", i), premises, premise_keys);
-                m.insert(h, mask);
+                if plan[i] {
+                    g.insert_proof(handle_of(h), alias_keys[h].clone(), format!("rule{}", i), premises, premise_keys);
+                    m.insert(h, mask | ALIAS_BIT);
+                    alias_used[h] = true;
+                } else {
+                    g.insert_proof(handle_of(h), keys[h].clone(), format!("rule{}", i), premises, premise_keys);
+                    m.insert(h, mask);
+                }
                 dep[h] |= mask;
                 if m.just[h].len() >= 2 {
                     multi_just = true;
@@ -653,9 +731,18 @@ fn execute(case: &Case, ctx: &mut Ctx) -> Verdict {
         if let Some(v) = observe(&mut g, &m, f1_at, &keys, obs, i, &what) {
             return v;
         }
+        if let Some(v) = observe_alias(&mut g, &m, f1_at, &alias_keys, &alias_used, i, &what) {
+            return v;
+        }
     }
     if let Some(v) = observe(&mut g, &m, f1_at, &keys, Obs::All, case.ops.len(), &|| "end of history".to_string()) {
         return v;
+    }
+    if let Some(v) = observe_alias(&mut g, &m, f1_at, &alias_keys, &alias_used, case.ops.len(), &|| "end of history".to_string()) {
+        return v;
+    }
+    if alias_used.iter().any(|&a| a) {
+        ctx.label("handle-under-two-keys");
     }
 
     if late_premise_got_node {
@@ -732,7 +819,7 @@ pub fn property() -> Property {
         rule: "generated: histories of insert_proof(h, key_h, premises) / invalidate_handle(h) / is_proven(key_h) on one ProofGraph; random part: 0..9 operations over 2..5 handles; exhaustive parts: every history of exactly N insert/invalidate operations over H handles up to renaming of handles (budget param = 10*H+N), premise sets = all subsets of the other handles that were never invalidated (directly or by losing all justifications), including handles that have no node yet. Oracle: justification-graph model from the statement (invalidate = flag + delete every justification mentioning the handle, repeated for every node left without justification; proven = not flagged and >= 1 justification), compared with get_node(h).valid for all handles after every operation and with is_proven/lookup_by_key at query operations, at the end, and in every-step cases after every operation. Non-trivial: a dependent was inserted before its premise got a node, or a node kept a justification while losing another, or an invalid node was re-proved; distinct by (handle count, observation mode, operation sequence).",
         assumptions: vec![
             "ProofGraph treats FactHandle values as opaque (hash/equality only), so exhaustive parts enumerate histories up to renaming of handles".into(),
-            "premises never name the handle being inserted, and never a handle that was invalidated before (stricter reading of the quantifier); one distinct FactKey per handle".into(),
+            "premises never name the handle being inserted, and never a handle that was invalidated before (stricter reading of the quantifier); one FactKey per handle, plus (one history in three) a second key `<Name>.alias` under which some of its insertions are filed; the second key is judged only where every reading agrees (a justification inserted under it survives => proven; no surviving justification at all => not proven)".into(),
             "the known-finding exclusion F1 is active only while KNOWN_FINDINGS.txt lists id=C17-F1 as known".into(),
         ],
         parts: vec![
